@@ -1010,8 +1010,63 @@ func (P *Prog) boolCallAtom(fn string, args ...string) string {
 		if a, ok := pureBoolTemplate(h); ok {
 			return substAtom(a, args).String()
 		}
+		if s, ok := exactBoolString(h); ok {
+			return substParams(s, args)
+		}
+	} else if t, ok := baselineTemplates[fn]; ok && t.Bool != "" {
+		// the helper was written out at its call sites and deleted: what it stood for
+		return substParams(t.Bool, args)
 	}
 	return fn + "(" + strings.Join(args, ",") + ")"
+}
+
+// exactBoolString: a pure boolean helper with several returns that answers true exactly when
+// one atom A holds (every true return carries A, every false return carries not-A).
+func exactBoolString(h *ssa.Function) (string, bool) {
+	if h == nil || !pureBody(h) || boolResultIndex(h) != 0 || h.Signature.Results().Len() != 1 {
+		return "", false
+	}
+	pos, neg := helperSiteFacts(h)
+	if len(pos) == 0 || len(neg) == 0 {
+		return "", false
+	}
+	inAll := func(sites [][]string, a string) bool {
+		for _, fs := range sites {
+			hit := false
+			for _, f := range fs {
+				if f == a {
+					hit = true
+				}
+			}
+			if !hit {
+				return false
+			}
+		}
+		return true
+	}
+	for _, a := range pos[0] {
+		if strings.Contains(a, "var(") {
+			continue
+		}
+		if na, ok := negAtomString(a); ok && inAll(pos, a) && inAll(neg, na) {
+			return a, true
+		}
+	}
+	return "", false
+}
+
+func negAtomString(a string) (string, bool) {
+	switch {
+	case strings.HasSuffix(a, " ==0"):
+		return strings.TrimSuffix(a, " ==0") + " !=0", true
+	case strings.HasSuffix(a, " !=0"):
+		return strings.TrimSuffix(a, " !=0") + " ==0", true
+	case strings.HasSuffix(a, ">=0") || strings.HasSuffix(a, ">=0f") || strings.HasSuffix(a, "<0f"):
+		return "", false
+	case strings.HasPrefix(a, "!"):
+		return a[1:], true
+	}
+	return "!" + a, true
 }
 
 func substAtom(a Atom, args []string) Atom {
@@ -1185,6 +1240,8 @@ func (P *Prog) callTerm(fn string, args ...string) string {
 		if tmpl, ok := pureValue(f); ok {
 			return substParams(tmpl, args)
 		}
+	} else if t, ok := baselineTemplates[fn]; ok && t.Value != "" {
+		return substParams(t.Value, args)
 	}
 	return fn + "(" + strings.Join(args, ",") + ")"
 }
